@@ -1,2 +1,17 @@
-import YncaVerif.Model.Types
-import YncaVerif.Model.Stepped
+-- Root of the `YncaVerif` library: models, lemmas and the property theorems that are complete.
+import YncaVerif.Model.Accept
+import YncaVerif.Model.Server
+import YncaVerif.Props.C01
+import YncaVerif.Props.C02
+import YncaVerif.Props.C03
+import YncaVerif.Props.C04
+import YncaVerif.Props.C05
+import YncaVerif.Props.C06
+import YncaVerif.Props.C08
+import YncaVerif.Props.C09
+import YncaVerif.Props.C10
+import YncaVerif.Props.C11
+import YncaVerif.Props.C13
+import YncaVerif.Props.C15
+import YncaVerif.Props.C16
+import YncaVerif.Props.C20
